@@ -48,15 +48,6 @@ SetOf(v) == {Canon(Elems(v)[i]) : i \in 1..Len(Elems(v))}
 \* set results are compared as sets: the reference lists members in the order of the first argument(s)
 SetRes(t, members) == SeqV(t, members)
 
-\* decimal text of small numbers (shared with TextRef)
-Digits  == <<"0", "1", "2", "3", "4", "5", "6", "7", "8", "9">>
-RECURSIVE NatDigits(_)
-NatDigits(n) == IF n < 10 THEN <<Digits[n + 1]>> ELSE NatDigits(n \div 10) \o <<Digits[(n % 10) + 1]>>
-IntText(k) == IF k < 0 THEN <<"-">> \o NatDigits(-k) ELSE NatDigits(k)
-\* shortest decimal text of a quarter-lattice number of magnitude < 10^6 (as %v and JSON write it)
-QText(q) == LET m == AbsI(q) fr == m % 4 IN
-  (IF q < 0 THEN <<"-">> ELSE <<>>) \o NatDigits(m \div 4)
-  \o (CASE fr = 0 -> <<>> [] fr = 1 -> <<".", "2", "5">> [] fr = 2 -> <<".", "5">> [] fr = 3 -> <<".", "7", "5">>)
 \* conversion of a primitive value to string, as unification of mixed primitive arguments requires
 PrimToStr(v) == IF v.st = "null" THEN Null(TStr)
                 ELSE IF v.ty.k = "string" THEN v
